@@ -83,17 +83,22 @@ CHECKS = {
     "C05": dict(
         text="An operation-for-operation soft-binary64 model (Lean 4, exact rationals) of getJulianDate, getCalendarDate, days2mdh, julianDateToDatetime, "
              "the ScenarioTime/JulianDate conversions, getTargetJulianDate and the step count of propagateTo, tied to the code BIT FOR BIT "
-             "(float.as_integer_ratio == model rational) on every generated instant, offset and timed run. Proved so far: the rounding library "
-             "(exactness, half-ulp error, grid membership, monotonicity within a binade for the model's rn, for all rationals) and machine-checked witnesses of the repaired and "
-             "unrepaired second-recovery rules; the universally quantified round-trip/monotonicity/step-count theorems are being added on top of that library "
-             "(partial until then). The property itself is evaluated on the real code for every case (round trip, strict monotonicity, offset error, floor(D/step) steps, epochs).",
-        note=BASE_TB + "IEEE-754 binary64 round-to-nearest-even for + - * / and exact floor on the host (checked bit for bit on every case); CPython datetime arithmetic; "
+             "(float.as_integer_ratio == model rational) on every generated instant, offset and timed run. Theorems, for EVERY whole-second civil instant of 1901-2099: "
+             "calendar -> Julian date -> calendar is the identity (civil_roundtrip) and the date fields come back exactly; Julian dates are strictly increasing and injective "
+             "in civil time; a Julian date is within 21 microseconds of its exact value; scenario time between two instants up to 1e8 s apart is their civil distance within half "
+             "a second (4.1e-5 s) with exact subtraction and multiplications; a timed run of D seconds (a multiple of the step) takes exactly D/dt steps. The proofs show every "
+             "float operation of the three routines to be exact except the quotient S/86400 and the sum J+frac (errors 2^-54 and 2^-32 day), the year guess to be the year or the "
+             "next (corrected by the day-of-year test), and the month loop by exhaustion; plus machine-checked witnesses of the repaired and unrepaired second rules. The property "
+             "itself is evaluated on the real code for every case (round trip, strict monotonicity, offset error, floor(D/step) steps, epochs).",
+        note=BASE_TB + "IEEE-754 binary64 round-to-nearest-even for + - * / and exact floor on the host (checked bit for bit on every case); CPython datetime arithmetic "
+             "(the labelling of the civil time line by `datetime + timedelta`, an hypothesis of timed_run_steps, tied by the bit-exact comparison of getTargetJulianDate); "
+             "theorems are for whole seconds (microsecond = 0), instants with microseconds are covered by the bit-exact correspondence only; "
              "propagateTo is driven on a stand-in scenario that only ticks the real ScenarioClock.",
-        technique="Lean 4 soft-float model with bit-exact differential correspondence; rounding lemmas proved, property theorems partial",
+        technique="Lean 4 soft-float model with bit-exact differential correspondence; universal round-trip, monotonicity, accuracy and step-count theorems proved over it",
         ref="5/C05",
     ),
     "C01": dict(
-        text="Theorems (Lean 4): consecutive step windows share their boundary bit for bit; under strict monotonicity of the Julian-date map, an event "
+        text="Theorems (Lean 4): consecutive step windows share their boundary bit for bit; under strict monotonicity of the Julian-date map (proved for the real map in C05 and imported as jd_monoOn_of_civil), an event "
              "row is relevant in step k iff its civil interval meets (start+(k-1)dt, start+k dt] and its instance matches, hence an instantaneous event "
              "is delivered in exactly one step (existence at ceil((tau-start)/dt), uniqueness), also on a boundary, and interval events in exactly the "
              "overlapping steps, only for the named instance; by induction over steps of the agent's queue model (append on delivery, prune at "
